@@ -145,9 +145,13 @@ def gen_len(rng, big_ok=True):
 def gen_text(rng, n):
     """UTF-8 bytes of a random text of about n bytes (mixed 1-4 byte code points)"""
     out = bytearray()
+    if n >= 3 and rng.random() < 0.08:
+        out += b'\xef\xbb\xbf'                 # U+FEFF in front: a character like any other, not a byte-order mark to be swallowed
     while len(out) < n:
         r = rng.random()
-        if r < 0.6:
+        if r < 0.03:
+            cp = rng.choice([0xfeff, 0x0, 0x2028, 0x85, 0xa0, 0x200b])
+        elif r < 0.6:
             cp = rng.randint(0x20, 0x7e)
         elif r < 0.8:
             cp = rng.randint(0x80, 0x7ff)
